@@ -1018,23 +1018,6 @@ Proof.
       apply leb_val_str; eapply in_combine_snd_P; eassumption.
 Qed.
 
-(** ** std.sum: Rust's Sum starts from -0.0 *)
-Definition sum_step (acc : option val) (x : val) : option val :=
-  a <- acc ;; if is_num x then add_num a x else None.
-Lemma sum_from_unfold init l : sum_from init l = fold_left sum_step l (Some init).
-Proof. reflexivity. Qed.
-Lemma fold_sum_none l : fold_left sum_step l None = None.
-Proof. induction l; [reflexivity|]. cbn. exact IHl. Qed.
-Definition is_negzero (x : val) : bool := match x with VNegZero => true | _ => false end.
-Lemma sum_impl_spec l : forallb is_negzero l = false -> sum_impl l = sum_spec l.
-Proof.
-  unfold sum_impl, sum_spec. rewrite !sum_from_unfold.
-  induction l as [|x l IH]; intros H; [discriminate|].
-  cbn [fold_left]. destruct x; cbn [sum_step bind is_num is_some numz];
-    rewrite ?fold_sum_none; try reflexivity.
-  apply IH. exact H.
-Qed.
-
 (** ** the calls whose two models differ only in the algorithms proved above *)
 Definition simple_call (c : call) : bool :=
   match c with
@@ -1057,9 +1040,9 @@ Proof.
 Qed.
 
 Lemma simple_calls_refine c :
-  simple_call c = true -> known_sum_negzero c = false -> impl_call c = spec_call c.
+  simple_call c = true -> impl_call c = spec_call c.
 Proof.
-  unfold impl_call, spec_call. destruct c; intros Hs Hk; try discriminate Hs; try reflexivity;
+  unfold impl_call, spec_call. destruct c; intros Hs; try discriminate Hs; try reflexivity;
     cbn [run impl_algos spec_algos a_sort a_uniq a_set a_member a_union a_inter a_diff a_flatten a_join
          a_remove a_remove_at a_sum].
   - (* uniq *) destruct (as_arr arr); [|reflexivity]. cbn [bind]. rewrite uniq_v_same. reflexivity.
@@ -1069,30 +1052,6 @@ Proof.
     destruct (mapM as_arr l); [|reflexivity]. cbn [bind]. rewrite flatten_impl_concat. reflexivity.
   - (* join *) destruct (as_arr arr); [|reflexivity]. cbn [bind]. rewrite join_with_same. reflexivity.
   - (* lines *) destruct (as_arr arr); [|reflexivity]. cbn [bind]. rewrite join_with_same. reflexivity.
-  - (* sum *) destruct arr; try reflexivity. cbn [as_arr bind]. cbn [known_sum_negzero all_neg_zero] in Hk.
-    rewrite sum_impl_spec; [reflexivity|exact Hk].
-  - (* avg *) unfold avg_with. destruct arr; try reflexivity. cbn [as_arr bind].
-    destruct l as [|x l]; [reflexivity|]. cbn [known_sum_negzero all_neg_zero] in Hk.
-    rewrite sum_impl_spec; [reflexivity|exact Hk].
-Qed.
-
-(** ** refutations *)
-(** the faithful model of std.sum leaves the documented definition on the empty array *)
-Lemma sum_refuted : exists c, known_sum_negzero c = true /\ judge c = JSpec /\ impl_call c <> spec_call c.
-Proof. exists (CSum (VArr [])). repeat split. discriminate. Qed.
-
-(** an unstable sort is observable: two lists, both sorted permutations of the input, that
-    differ (0 and -0 compare equal and are different values) *)
-Lemma unstable_sort_observable :
-  exists l l' : list val,
-    Permutation l l' /\
-    StronglySorted (fun a b => leb_val a b = true) l' /\
-    sort_spec None l = Some l /\ l' <> l.
-Proof.
-  exists [VNum 0; VNegZero], [VNegZero; VNum 0]. repeat split.
-  - apply perm_swap.
-  - repeat constructor.
-  - discriminate.
 Qed.
 
 Lemma cmp_laws_Z : cmp_laws Z.compare.
